@@ -390,8 +390,12 @@ def counts(E):
 def harnesses(tier):
     q = tier == "quick"
     T = 600 if q else 900
-    n, m = (2, 2) if q else (2, 3)
-    return [
+    n, m = (2, 2)
+    more = [] if q else [
+        H("doubling_3q", doubling, dict(n=3, m=1), FUNCS, covers=["doubling"],
+          engine="SYM (z3 QF_NRA)", bounds="3 qubits, 1 layer (generic 1/2-"
+          "qubit matrices at every offset, rotations, scalars)", timeout_s=T)]
+    return more + [
         H("doubling", doubling, dict(n=n, m=m), FUNCS, covers=["doubling"],
           engine="SYM (z3 QF_NRA)", bounds="%d qubits, %d layers over generic "
           "1/2-qubit matrices, Rx/CRz with symbolic phases, symbolic complex "
